@@ -68,10 +68,31 @@ inductive Msg where
 /-- Current weight of a member (`MEMBERS.may_load`). -/
 def weight (s : State) (a : Addr) : Option Nat := s.members.get? a
 
-/-- `members.sort_by(|a, b| a.addr.cmp(&b.addr))` (stable; the order of equal addresses is irrelevant
-because equal addresses are rejected). -/
-def sortMembers (l : List (AddrArg × Nat)) : List (AddrArg × Nat) :=
-  l.mergeSort (fun a b => !(Paginate.strLt b.1.text a.1.text))
+/-- Insert into a list sorted by address before the first entry that is not smaller, so an entry stays in
+front of later equal ones (stable). -/
+def insertMember (x : AddrArg × Nat) : List (AddrArg × Nat) → List (AddrArg × Nat)
+  | [] => [x]
+  | y :: ys => if Paginate.strLt y.1.text x.1.text then y :: insertMember x ys else x :: y :: ys
+
+/-- `members.sort_by(|a, b| a.addr.cmp(&b.addr))`: a stable sort by address string (insertion sort, so that
+concrete instances reduce in the kernel; the order of equal addresses is irrelevant anyway because equal
+addresses are rejected). -/
+def sortMembers (l : List (AddrArg × Nat)) : List (AddrArg × Nat) := l.foldr insertMember []
+
+theorem insertMember_perm (x : AddrArg × Nat) (l : List (AddrArg × Nat)) : (insertMember x l).Perm (x :: l) := by
+  induction l with
+  | nil => exact List.Perm.refl _
+  | cons y ys ih =>
+    unfold insertMember
+    split
+    · exact (List.Perm.cons y ih).trans (List.Perm.swap x y ys)
+    · exact List.Perm.refl _
+
+/-- Sorting only reorders the list. -/
+theorem sortMembers_perm (l : List (AddrArg × Nat)) : (sortMembers l).Perm l := by
+  induction l with
+  | nil => exact List.Perm.refl _
+  | cons x xs ih => exact (insertMember_perm x _).trans (List.Perm.cons x ih)
 
 /-- `validate_unique_members` succeeds iff the address strings are pairwise distinct. -/
 def uniqueMembers (l : List (AddrArg × Nat)) : Bool := decide ((l.map (·.1.text)).Nodup)
